@@ -2,7 +2,8 @@
    hierarchies built entirely inside the model).  Same directives as Extract_kernels.v. *)
 From Amgcl Require Import ExtractCommon.
 From Coq Require Import QArith Qcanon.
-From Amgcl Require Import Scalar QcInst Vec Crs Kernels MatOps Relax DenseSolve Amg AmgExec AmgBlock.
+From Amgcl Require Import Scalar QcInst Vec Crs Kernels MatOps MatOps2 Relax DenseSolve Aggregates Tentative Coarsen
+  Amg AmgExec AmgBlock AmgFull.
 Separate Extraction
   QcInst.QcS Scalar.is_zero Scalar.smax Scalar.smin
-  Vec Crs Kernels MatOps Relax DenseSolve Amg AmgExec AmgBlock.
+  Vec Crs Kernels MatOps MatOps2 Relax DenseSolve Aggregates Tentative Coarsen Amg AmgExec AmgBlock AmgFull.
